@@ -813,6 +813,7 @@ def gen_absorbed(rng: random.Random) -> tuple[e3.Project, list, list, str, dict 
     scripts = {}
     msteps = []                     # engine description: (label, inputs, variables, outputs, constant?)
     mamend = []                     # (label of a script step, its script, the paths it amends)
+    optional = set()                # labels declared with need OPTIONAL
 
     def tracked():
         k = rng.choice([0, 1, 1, 2])
@@ -827,6 +828,7 @@ def gen_absorbed(rng: random.Random) -> tuple[e3.Project, list, list, str, dict 
             a["env"] = env
         if need:
             a["need"] = need
+            optional.add(label)
         decl.append(a)
         commands[label] = [{"op": "getenv", "name": n} for n in env] + [{"op": "auto"}]
         msteps.append((label, list(inp), list(env), list(out), False))
@@ -860,6 +862,8 @@ def gen_absorbed(rng: random.Random) -> tuple[e3.Project, list, list, str, dict 
     if "optional" in feats:
         step("to", ["a0.out"], ["to.out"], tracked(), need="OPTIONAL")
         step("tm", ["to.out"], ["tm.out"], tracked())
+        # an optional step nothing needs: never built, never checked, never executed
+        step("ti", ["a0.out"], ["ti.out"], tracked(), need="OPTIONAL")
     if "glob" in feats:
         for k in ("1", "2"):
             sources[f"gq_{k}.txt"] = f"glob source {k} v0\n"
@@ -903,7 +907,8 @@ def gen_absorbed(rng: random.Random) -> tuple[e3.Project, list, list, str, dict 
         # fixed plan with amended inputs: the gated engine of Section Amend
         srcs = dict(sources)
         srcs.update({script: "script " + script for _l, script, _a in mamend})
-        engine = {"steps": msteps, "amend": mamend, "sources": srcs, "env": dict(env),
+        # the amend engine has no `need`: the idle optional step (never dispatched) is left out of its project
+        engine = {"steps": [s for s in msteps if s[0] != "ti"], "amend": mamend, "sources": srcs, "env": dict(env),
                   "edits": [e for e in edits if e["op"] in ("write", "setenv")]}
     elif "amend" not in feats:
         # the plan after the edit: a new match of the pattern adds its absorber (declared by the rerun owner)
@@ -912,11 +917,12 @@ def gen_absorbed(rng: random.Random) -> tuple[e3.Project, list, list, str, dict 
             k = next(i for i, s in enumerate(after) if s[0] == "tgc")
             after.insert(k, ("gab gq_7.txt", ["gq_7.txt"], [], ["gqo_gq_7.out"], True))
         engine = {"steps": msteps, "steps_after": after, "sources": dict(sources), "env": dict(env),
+                  "optional": sorted(optional),
                   "edits": [e for e in edits if e["op"] in ("write", "setenv")]}
     return project, edits, edited, "+".join([variant] + feats), engine
 
 
-def engine_term(engine: dict, flavour: str, first_ran: list, cone_log: dict) -> str:
+def engine_term(engine: dict, flavour: str, first_ran: list, cone_log: dict, first_files=None) -> str:
     """The Gallina term `check_cone_dyn (absorb_run consts) [] empty_sys [(P, phase0); (P', phase1)]`
     (model/NoopExec.v): the engine model run on the same two worlds with the same two plans must execute exactly the
     steps the real director executed, check and skip only steps the director checked and skipped, and change
@@ -963,7 +969,7 @@ def engine_term(engine: dict, flavour: str, first_ran: list, cone_log: dict) -> 
         return common.coq_list([str(labels[l]) for l in sorted(set(ls)) if l in labels])
     outs0 = sorted(p for s in before for p in s[3])
     outs1 = sorted(p for s in after for p in s[3])
-    chg0 = common.coq_list([f"({pid[p]}, true)" for p in outs0])
+    chg0 = common.coq_list([f"({pid[p]}, {common.coq_bool(first_files is None or p in first_files)})" for p in outs0])
     chg1 = common.coq_list([f"({pid[p]}, {common.coq_bool(p in cone_log['changed'])})" for p in outs1])
     if engine.get("amend"):
         tab = common.coq_list([f"({labels[l]}, {num(cid, 'file:' + engine['sources'][script], 1)}, "
@@ -974,6 +980,9 @@ def engine_term(engine: dict, flavour: str, first_ran: list, cone_log: dict) -> 
                 f"({s1}, {e1}, {ids(cone_log['ran'])}, {ids(cone_log['skipped'])}, {chg1})]")
     ph0 = f"({p0}, ({s0}, {e0}, {ids(first_ran)}, [], {chg0}))"
     ph1 = f"({p1}, ({s1}, {e1}, {ids(cone_log['ran'])}, {ids(cone_log['skipped'])}, {chg1}))"
+    if engine.get("optional"):
+        mand = common.coq_list([str(labels[s[0]]) for s in before + after if s[0] not in engine["optional"]])
+        return f"check_cone_dyn_opt (absorb_run {common.coq_list(consts)}) {mand} [] empty_sys [{ph0}; {ph1}]"
     return f"check_cone_dyn (absorb_run {common.coq_list(consts)}) [] empty_sys [{ph0}; {ph1}]"
 
 
@@ -1007,7 +1016,7 @@ def run_absorbed(item: dict) -> dict:
     if schedule is not None:
         rep["stats"]["absorbed:random_schedule"] = 1
     if engine is not None and rep.get("cone_log") and not rep.get("timeout") and rep.get("first_ran") is not None:
-        rep["engine_term"] = engine_term(engine, flavour, rep["first_ran"], rep["cone_log"])
+        rep["engine_term"] = engine_term(engine, flavour, rep["first_ran"], rep["cone_log"], rep.get("first_files"))
     return rep
 
 
@@ -1480,6 +1489,7 @@ def _run_restart(item, rng, proj, history, root, kw, report, count, fail):
 
     ref = build()
     report["first_ran"] = sorted(set(ref.executed()))
+    report["first_files"] = sorted(ref.files)
     phases = list(history) + [None]
     for phase in phases:
         count(f"rc:{e3.rc_class(ref.returncode)}:{ref.returncode}")
@@ -1516,6 +1526,7 @@ def _run_watch(item, rng, proj, history, root, kw, report, count, fail):
         report["nbuilds"] += 1
         ref = ws.first()
         report["first_ran"] = sorted(set(ref.executed()))
+        report["first_files"] = sorted(ref.files)
         phases = list(history) + [None]
 
         def rebuild(schedule=None):
